@@ -174,8 +174,31 @@ def runGroups (stepF : World → Op → WRet) : List (List Op) → World → Lis
 def field (toks : List String) (key : String) : Option String :=
   (toks.find? (fun t => t.startsWith (key ++ "="))).map (fun t => (t.drop (key.length + 1)).toString)
 
+/-- `print P=<0|1> F=<-|<h|r|t|f>:<Err>> S=<0|1>`: one call of `ErrorInterceptor.print` at the level of its writes
+    (`Print.printP Gen.printProgram`): stderr truthy?, the chunk whose write raises, `str(record)` raises?
+    answer: `<chunks written>:<placeholder 0|1>:<escaping error | ->` -/
+def stepPrint (toks : List String) : String :=
+  match field toks "P", field toks "F", field toks "S" with
+  | some p, some f, some s =>
+    let wr : Option (Chunk → Option Err) :=
+      if f = "-" then some (fun _ => none) else
+      match f.splitOn ":" with
+      | [c, e] => match parseChunk c, parseErr e with
+        | some c, some e => some (fun c' => if c' = c then some e else none)
+        | _, _ => none
+      | _ => none
+    match parseB p, wr, parseB s with
+    | some p, some wr, some s =>
+      let o := Print.printP Gen.printProgram ⟨p, wr, s⟩
+      let ch := "".intercalate (o.chunks.map showChunk)
+      let esc := match o.escapes with | some e => toString e | none => "-"
+      s!"{if ch = "" then "-" else ch}:{if o.placeholder && o.chunks.contains .record then 1 else 0}:{esc}"
+    | _, _, _ => "bad-op"
+  | _, _, _ => "bad-op"
+
 def step (line : String) : String :=
   match line.splitOn " " with
+  | "print" :: toks => stepPrint toks
   | "run" :: toks =>
     match field toks "H", field toks "F", field toks "A", field toks "R", field toks "X", field toks "S",
           field toks "N", field toks "L", field toks "E", field toks "D", field toks "O" with
@@ -187,6 +210,10 @@ def step (line : String) : String :=
       let lv := allSome ((items l ";").map (fun s => nats s ","))
       let groups := allSome ((items o ";").map (fun g => allSome ((items g "+").map parseOp)))
       let mode := parseModes e
+      -- W=<i;...>: messages logged with opt(raw=True) (optional field)
+      let raws : List Nat := match field toks "W" with
+        | some ws => (nats ws ";").getD []
+        | none => []
       match cfgs, faults, rej, ree, nats x ";", nats s ";", nats nl ";", lv, mode, d.toNat?, groups with
       | some cfgs, some faults, some rej, some ree, some xs, some ss, some nls, some lv, some mode, some d,
         some groups =>
@@ -202,7 +229,8 @@ def step (line : String) : String :=
               | none => mode.1,
             strFails := fun i => ss.contains i,
             reenter := fun i hh => (ree.filter (fun p => p.1 = i ∧ p.2.1 = hh)).map (·.2.2),
-            loop := fun i => !(nls.contains i) }
+            loop := fun i => !(nls.contains i),
+            raw := fun i => raws.contains i }
         let w := cfgs.foldl (fun w c => addW c w) ({} : World)
         -- registry-level re-entrancy (Emit/Nested.lean); when no sink re-enters, the handler-level model
         -- (Emit/Model.lean, the one `emit_characterised` & co speak about) must give the same answer
